@@ -262,8 +262,9 @@ impl<'a> Exec<'a> {
     }
 
     fn check_empty(&mut self, d: &dyn DigDyn, prop: &'static str, ctx: &str) {
-        let q = d.quantile(0.5);
-        let c = d.cdf(0.0);
+        // every argument, the infinities included: NaN from quantile, 0 from cdf
+        let q = [0.5, 0.0, 1.0].iter().map(|&q| d.quantile(q)).find(|v| !v.is_nan()).unwrap_or(f64::NAN);
+        let c = [0.0, f64::NEG_INFINITY, f64::INFINITY, f64::MAX, f64::MIN, 1.0].iter().map(|&x| d.cdf(x)).find(|&v| v != 0.0).unwrap_or(0.0);
         if !q.is_nan() || c != 0.0 || d.count() != 0.0 || !d.is_empty() || d.n_centroids() != 0 {
             self.viol.push(v(prop, format!("tdigest/{}/empty-reads", self.sname), self.step,
                 format!("{}: empty digest returned quantile {}, cdf {}, count {}, is_empty {}", ctx, q, c, d.count(), d.is_empty())));
@@ -405,7 +406,7 @@ impl<'a> Exec<'a> {
 
         // ---- cdf sweep: 200 points across [min, max], the extremes, and points outside
         let margin = (2.0 * eps).max(f64::MIN_POSITIVE);
-        let mut xs: Vec<f64> = vec![a.min - range.max(1.0) - margin, a.min - 2.0 * margin, a.min, a.max, a.max + 2.0 * margin, a.max + range.max(1.0) + margin];
+        let mut xs: Vec<f64> = vec![f64::NEG_INFINITY, f64::INFINITY, a.min - range.max(1.0) - margin, a.min - 2.0 * margin, a.min, a.max, a.max + 2.0 * margin, a.max + range.max(1.0) + margin];
         for i in 1..200 {
             xs.push(lerp(a.min, a.max, i as f64 / 200.0));
         }
@@ -453,6 +454,37 @@ impl<'a> Exec<'a> {
                         if self.mine() {
                     return;
                 }
+                    }
+                }
+            }
+        }
+        // ---- exact ties: cdf at the data values themselves, literal reading of the statement.
+        // Only where floating point plays no part: unit weights and small integer values, so that
+        // every centroid sum is exact and a centroid holding copies of one value has exactly that
+        // value as its mean. (For other data the interval reading above is the sound one: a fused
+        // mean that is an ulp off moves the probe across the whole tie.)
+        if a.unit && sorted.iter().all(|y| y.fract() == 0.0 && y.abs() <= 1_048_576.0) {
+            if let Some(w) = w {
+                let allowed = 3.0 * w + 2.0 / nf;
+                let mut distinct: Vec<f64> = sorted.clone();
+                distinct.dedup();
+                if distinct.len() <= 64 {
+                    self.stats.probe("cdf_at_exact_tie_values");
+                    for &x in &distinct {
+                        let cv = d.cdf(x);
+                        let dist = (cv - le(x)).abs();
+                        if std::env::var("PDSIM_CALIB").ok().and_then(|t| t.parse::<f64>().ok()).map_or(false, |t| dist - 2.0 / nf > t * w) {
+                            eprintln!("CALIB tie ratio {:.3} scale {} n {} delta {} backlog {} pattern {} x {} cv {} F {}", (dist - 2.0 / nf) / w, s, n, case.delta, case.backlog, case.pattern, x, cv, le(x));
+                        }
+                        if dist > allowed {
+                            self.viol.push(v("C04", format!("tdigest/{}/cdf-rank-error-at-tie", s), self.step,
+                                format!("n = {}, delta = {}, backlog = {}, pattern {}: cdf({}) = {:.6}, the fraction of inserted values <= {} is {:.6}, off by {:.6} > 3 W + 2/n = {:.6}",
+                                    n, case.delta, case.backlog, case.pattern, x, cv, x, le(x), dist, allowed)));
+                            if self.mine() {
+                                return;
+                            }
+                            break;
+                        }
                     }
                 }
             }
@@ -798,7 +830,8 @@ fn gen_values(g: &mut Sm, n: usize) -> (Vec<f64>, String, bool, bool) {
         }
     };
     // affine map; keep |offset| <= 100 * range so that "ulps of the data range" stays meaningful
-    let constant = name == "constant";
+    // (half of the integer-valued patterns stay as they are: exact ties, exact centroid sums)
+    let constant = name == "constant" || (matches!(name, "few-distinct-values" | "sawtooth-integers" | "sorted-integers") && g.chance(1, 2));
     for x in vals.iter_mut() {
         *x = if constant { *x } else { *x * scale + offset * scale };
     }
